@@ -540,3 +540,61 @@ def case_history(ctx, cfg):
     ok = e0 is None and e1 is None and e2 is None and pts_match(as_arrays(r0), [[1, 1, 0], [1, 1, 2]]) and pts_match(as_arrays(r1), [[6, 1, 0], [6, 1, 2]]) and pts_match(as_arrays(r2), [[1, 1, 0], [1, 1, 2]])
     if not ok:
         ctx.fail("polyhedron-line:history", "intersect", {"cuboid": "0..2 cube", "history": "intersect, translate, intersect both"}, "two face points each", e0 or e1 or e2 or [as_arrays(r0), as_arrays(r1), as_arrays(r2)])
+
+
+# ---------------------------------------------------------------------------------------------------
+# rays (segments with one endpoint at infinity)
+
+
+def enum_rays(tier, seed):
+    for a in PTS2:
+        for d in lattice(2, 1):
+            yield (a, d)
+
+
+@family("C18", "ray_line_segment_2d", enum_rays)
+def case_rays(ctx, cfg):
+    import geometer as G
+
+    a, d = cfg
+    b = (a[0] + d[0], a[1] + d[1])
+    for order in ("finite-first", "infinite-first"):
+        A, B = P(G, a), G.Point(np.array([d[0], d[1], 0], dtype=float))
+        S = G.Segment(A, B) if order == "finite-first" else G.Segment(B, A)
+        for c, d2 in itertools.permutations(PTS2, 2):
+            rel = line_line_2d(a, b, c, d2)
+            ctx.state((a, d, order, c, d2))
+            T = G.Segment(P(G, c), P(G, d2))
+            L = G.Line(P(G, c), P(G, d2))
+            inputs = {"ray_from": a, "direction": d, "order": order, "other": [c, d2]}
+            if rel[0] != "point":
+                ctx.tally("collinear" if rel[0] == "same" else "parallel")
+                for other, tag in ((T, "segment"), (L, "line")):
+                    r, e = ctx.call(S.intersect, other)
+                    ctx.trace()
+                    if e is not None:
+                        ctx.fail(f"ray-{tag}:{rel[0]}:{type(e).__name__}", "intersect", inputs, [], e)
+                        return
+                    if rel[0] == "parallel" and len(r) != 0:
+                        # a ray and a parallel LINE share the point at infinity of their direction, which is the ray's
+                        # own endpoint: returning it is not spurious; anything else is
+                        if tag == "line" and len(r) == 1 and proj_eq(r[0].array, np.array([d[0], d[1], 0.0]), 1e-9):
+                            ctx.tally("parallel:common-point-at-infinity")
+                            continue
+                        ctx.fail(f"ray-{tag}:parallel:spurious-point", "intersect", inputs, [], as_arrays(r))
+                        return
+                continue
+            _, X_, t, s_ = rel
+            want_l = [X_] if t >= 0 else []
+            want_s = [X_] if t >= 0 and 0 <= s_ <= 1 else []
+            ctx.tally("hit" if want_s else "miss")
+            for other, want, tag in ((T, want_s, "segment"), (L, want_l, "line")):
+                r, e = ctx.call(S.intersect, other)
+                ctx.trace()
+                if e is not None or not all_points(G, r) or not pts_match(as_arrays(r), want):
+                    ctx.fail(f"ray-{tag}:{'behind-the-origin-of-the-ray' if t < 0 else 'ahead'}", "intersect", inputs, [[str(x) for x in w] for w in want], e if e is not None else as_arrays(r))
+                    return
+            r, e = ctx.call(T.intersect, S)
+            if e is not None or not pts_match(as_arrays(r), want_s):
+                ctx.fail("segment-ray:swapped", "intersect", inputs, [[str(x) for x in w] for w in want_s], e if e is not None else as_arrays(r))
+                return
